@@ -100,7 +100,11 @@ func openFile(w *world.World, root cid.Cid, via int) (datamodel.Node, string, er
 func (c04) Run(ts *tape.Set, tier Tier) *Result {
 	res := &Result{Execs: 1}
 	shape := ts.T("shape")
-	spec := gen.DrawFileSpec(shape, gen.FileOpts{MaxSize: 16 << 10, AllowOdd: true, AllowNoSizes: true})
+	maxSize := 16 << 10
+	if tier == Thorough {
+		maxSize = 64 << 10
+	}
+	spec := gen.DrawFileSpec(shape, gen.FileOpts{MaxSize: maxSize, AllowOdd: true, AllowNoSizes: true})
 	nReaders := 1 + shape.Pick(3, 3, 1)
 	via := shape.Intn(3)
 	fragMode := shape.Pick(2, 1, 1, 1)
